@@ -14,6 +14,13 @@
 (*   reflect   sends the honest side's own proof back (listener side) or a *)
 (*             receiver-role proof (dialer side)                           *)
 (*   closes    closes the stream without a message                         *)
+(*   relay     an attacker on the path terminates this connection (one TLS *)
+(*             session towards each honest side) and passes the two        *)
+(*             authentication messages on verbatim; the other connections  *)
+(*             of the same transfer run end to end (Auth.tla topology      *)
+(*             "relay": rejected because the proof is bound to the         *)
+(*             session).  Rows with a relay have honest peers otherwise,   *)
+(*             and both real loops run against each other.                 *)
 (* Auth.tla decides which kinds authenticate: only `honest`.               *)
 (* Switch AppendBeforeAuth = FALSE is the code as written.                 *)
 (***************************************************************************)
@@ -21,14 +28,15 @@ EXTENDS Integers, Sequences, FiniteSets, TLC, Json
 
 CONSTANTS MaxPeers, AppendBeforeAuth
 
-Kinds == {"honest", "wrongcode", "garbage", "reflect", "closes"}
+Rogue == {"wrongcode", "garbage", "reflect", "closes"}
+Kinds == {"honest", "relay"} \cup Rogue
 AuthOK(k) == k = "honest"
 
 VARIABLES side, kinds, i, conns, failed, pc
 vars == <<side, kinds, i, conns, failed, pc>>
 
 Init == /\ side \in {"accept", "dial"}
-        /\ kinds \in UNION {[1..n -> Kinds] : n \in 1..MaxPeers}
+        /\ kinds \in UNION {[1..n -> {"honest"} \cup Rogue] : n \in 1..MaxPeers} \cup UNION {[1..n -> {"honest", "relay"}] : n \in 1..MaxPeers}
         /\ i = 1 /\ conns = {} /\ failed = {} /\ pc = "loop"
 
 \* one iteration: accept/dial the i-th connection, authenticate it
